@@ -318,6 +318,9 @@ func (t *Transaction) Commit() {
 	}
 
 	// Update our copy of the config with the most recent one from the state.
+	// Start from nil: decoding into the old map would keep the entries of
+	// snaps whose configuration was removed meanwhile and write them back.
+	t.pristine = nil
 	err := t.state.Get("config", &t.pristine)
 	if errors.Is(err, state.ErrNoState) {
 		t.pristine = make(map[string]map[string]*json.RawMessage)
